@@ -73,6 +73,38 @@ def check(prog, rep, tier):
         for n in ast.walk(ast.Module(body=lp.body, type_ignores=[])):
             if isinstance(n, (ast.Break, ast.Return)):
                 probs.append('loop on parse_buffer() can be left before parse_buffer returns False')
+    # the loop on parse_buffer() is reached unconditionally and is not bounded by anything but
+    # parse_buffer's own result
+    par_dr = {}
+    for n in ast.walk(dr.node):
+        for c in ast.iter_child_nodes(n):
+            par_dr[c] = n
+    for n in ast.walk(dr.node):
+        if isinstance(n, ast.Return):
+            probs.append('dataReceived can return before the parse loop (line %d)' % n.lineno)
+        if isinstance(n, ast.For) and 'parse_buffer' in ' '.join(src_of(b) for b in n.body):
+            probs.append('parse_buffer() is called from a bounded for-loop: messages left in the buffer wait '
+                         'for the next segment')
+    for lp in loops[:1]:
+        cur = lp
+        while cur in par_dr and cur is not dr.node:
+            cur = par_dr[cur]
+            if isinstance(cur, (ast.If, ast.For, ast.While, ast.Try)):
+                probs.append('the parse loop is nested in a %s' % type(cur).__name__)
+    # memory: besides the buffer no attribute of self is both written and read by the deframer
+    pbf = bgp.find_method('parse_buffer')
+    written, read = {}, set()
+    for fn in (dr, pbf):
+        for n in ast.walk(fn.node):
+            if isinstance(n, ast.Attribute) and isinstance(n.value, ast.Name) and n.value.id == 'self':
+                if isinstance(n.ctx, ast.Store):
+                    written[n.attr] = (fn, n.lineno)
+                elif isinstance(n.ctx, ast.Load):
+                    read.add(n.attr)
+    for a, (fn, line) in sorted(written.items()):
+        if a != '_receive_buffer' and a in read:
+            probs.append('%s keeps extra state in self.%s (line %d): what is extracted then depends on how the '
+                         'stream was segmented, not only on the bytes' % (fn.name, a, line))
     if probs:
         rep.bad('R04.a', 'dataReceived', file=dr.file, line=dr.node.lineno, func=dr.qualname,
                 found='; '.join(probs), expected='buffer += chunk; while parse_buffer(): pass',
